@@ -6,7 +6,7 @@ NOT_APPLICABLE = []
 CHECKS["C14"] = dict(
     pkg="c14", level="exploration",
     props=[
-        dict(name="TestPropSchedule", quick=300000, thorough=16 * 3000000, shards_thorough=16, shards_quick=4),
+        dict(name="TestPropSchedule", quick=300000, thorough=16 * 1000000, shards_thorough=16, shards_quick=4),
         dict(name="TestEnumSweep", rapid=False, quick=1, thorough=1, shards_quick=8, shards_thorough=16),
     ],
     rule="rapid draws (start,end) minute pairs (biased to equal / adjacent / wrapping), a weekday subset, 0-3 dates "
